@@ -23,7 +23,7 @@ def program(c):
         if rc != 0:
             print(err[-600:])
             continue
-        p = subprocess.run([exe], stdout=subprocess.PIPE, stderr=subprocess.STDOUT, timeout=120)
+        p = subprocess.run((['valgrind', '-q', '--error-exitcode=9'] if b.get('valgrind') else []) + [exe], stdout=subprocess.PIPE, stderr=subprocess.STDOUT, timeout=600)
         print('run        : exit status', p.returncode)
         print(p.stdout.decode('utf-8', 'replace')[-600:])
         bad = bad or p.returncode != 0
